@@ -308,8 +308,6 @@ class Circuit:
             if f_sig == "signal-each":
                 return compare(cmp_, f_in.get(each_sig, 0), rhs)
             if f_sig in ("signal-everything", "signal-anything"):
-                if s_sig is not None and f_in.get(s_sig, 0) != 0:
-                    raise Unmodelled("wildcard compared with a signal on the same network")
                 vals = list(f_in.values())
                 if f_sig == "signal-everything":
                     return all(compare(cmp_, v, rhs) for v in vals)
